@@ -496,9 +496,11 @@ def shard(args):
     thorough = tier == "thorough"
     acc = Acc(seed=seed, sample_stride=997)
     env = Env()
-    # asynchronous points: every function entry / C-function return executed while the body runs inside the context, in ANY module
-    # (a signal handler can run inside the functions curtsies calls - blessed, logging - just as well as in curtsies' own frames)
-    cdir = "/"
+    # asynchronous points: function entries / C-function returns in curtsies' own frames.  Injecting an *exception* inside the
+    # functions curtsies calls in other modules (re, blessed, logging) was tried and withdrawn: it corrupts those modules' global
+    # caches (e.g. re._cache is popped and not re-inserted), which poisons every later case run in the same worker process and
+    # raises alarms that have nothing to do with curtsies.
+    cdir = curtsies_dir()
     name, factory, kind = contexts()[ci_idx]
     cfg = dict(configs_for(kind, thorough)[cfg_idx], context=name)
     ops = ops_for(kind)
